@@ -8,7 +8,9 @@ for f in sorted(glob.glob(os.path.join(ROOT, "seeded", "*", "meta.json"))):
     am = d.get("agent_meta") or {}
     what = (am.get("what") or "").replace("|", "/").replace("\n", " ")
     needs = (am.get("needs") or "").replace("|", "/").replace("\n", " ")
-    if d.get("patch_applies_to_repo_head") != "ok":
+    if d.get("note"):
+        res = d["note"]
+    elif d.get("patch_applies_to_repo_head") != "ok":
         res = "patch no longer applies to the repaired tree (the mutated code was rewritten by a fix) — not evaluated"
     else:
         parts = []
